@@ -34,6 +34,9 @@ def customizations(spec: model.LSPModel) -> model.LSPModel:
 
 
 def generate_from_spec(spec: model.LSPModel, output_dir: str, test_dir: str) -> None:
+    # The plugin names literals, adds and changes declarations while it works:
+    # on a copy, so that the caller's model stays as loaded for the next plugin.
+    spec = copy.deepcopy(spec)
     spec = customizations(spec)
     code = TypesCodeGenerator(spec).get_code()
 
